@@ -116,6 +116,21 @@ PLANS = {
         ],
         trusted_base=['pyvc (this repository)', 'z3 5.1'],
     ),
+    'C15': dict(
+        specs=['spec.satspec'], contracts=['contracts.sat'],
+        targets=['prover.sat.is_solution', 'prover.sat.resolution'],
+        bounded=['bounded.c15_sat.run'], level='proof', native_per_fn={'quick': 0, 'thorough': 0},
+        assumptions=COMMON_ASSUMPTIONS + [
+            "deductive part: is_solution(cnf, a) = every clause has a literal made true by a (nested loops with "
+            "break, all lengths); resolution(c1, c2, x) (clauses as sets) is sound for every assignment of x when x "
+            "occurs in c1 and c2 only with opposite signs, and x does not occur in the resolvent",
+            "the CDCL loop itself (unit_propagate / analyze_conflict / backtrack: closures over shared mutable "
+            "state), termination, verdicts and the validity of resolution traces are covered ONLY by the bounded "
+            "stand-in bounded/c15_sat.py (exhaustive small clause sets, random larger ones, exhaustive-search oracle, "
+            "own trace checker); tseitin.encode is not covered yet",
+        ],
+        trusted_base=['pyvc (this repository)', 'z3 5.1'],
+    ),
     'C20': dict(
         models=['models.imperative'], specs=['spec.imp'], contracts=['contracts.imperative'],
         targets=['imperative.expr.Var.subst', 'imperative.expr.ArrayElt.subst', 'imperative.expr.Field.subst',
